@@ -747,6 +747,11 @@ def case_reconfigure(ctx):
         cur = layout_of(subj)
         try:
             pre = snap_location(subj)
+            if cur == "lightweight":
+                # a lightweight checkout has no repository of its own: what it shows is the referenced branch's repository,
+                # which a reconfiguration of the checkout leaves in place (thorough seed 2 case 2: dead heads carried there
+                # by an earlier step need not come back into a new local repository)
+                pre["own_repo"] = False
             pre_main = snap_location(main_path, want=set(pre["testaments"]))
         except Exception as e:
             if si == 0:
